@@ -124,13 +124,13 @@ PROPS["C11"] = {
     "assumptions": [],
 }
 PROPS["C19"] = {
-    "rules": [r_task.rule_M1, r_task.rule_M2, r_task.rule_M3, r_task.rule_M4, r_task.rule_M5, r_task.rule_M6, r_task.rule_M7, r_task.rule_M8],
+    "rules": [r_task.rule_M1, r_task.rule_M2, r_task.rule_M3, r_task.rule_M4, r_task.rule_M5, r_task.rule_M6, r_task.rule_M7, r_task.rule_M8, r_task.rule_M9],
     "explanation": "M1 single writer of the task map / single constructor of Operations; M2 TaskData::update records the looked-up previous value (lookup precedes the change), delete records the old task; M3 every public Task mutator funnels into TaskData::update; M4 `modified` refresh table of set_value (exhaustive, 6 paths) incl. the once-per-session flag; M5 status/end table of set_status (8 rows); M6 reserved-name guards dominate the writes; M7 writer/reader key-prefix vocabulary and timestamp encoding; M8 synthetic-tag table and pending-gated dependency edges.",
     "not_decided": "agreement of the held object with storage after commit for all mutator sequences (follows from M1-M3 + C05, but is a statement about sequences)",
     "assumptions": [],
 }
 PROPS["C20"] = {
-    "rules": [r_task.rule_E, r_transform.rule_DELETE_WINS, r_task.rule_M1],
+    "rules": [r_task.rule_E, r_transform.rule_DELETE_WINS, r_task.rule_M1, r_storage.rule_N3],
     "explanation": "E1 expiration predicate (status == Deleted's storage string, `modified` parsed, strictly older than now - Duration::days(180)); E2 purge through TaskData::delete + commit_operations (ordinary synchronised deletions); TR/DEL delete beats a concurrent update in both argument orders (exhaustive over the abstract space); M1 operations are only built by TaskData.",
     "not_decided": "the multi-replica outcome after sync as a property of histories",
     "assumptions": [],
